@@ -13,7 +13,7 @@ META = {
                   "codec": "78-byte xprv/xpub: depth, fingerprint, child number, chain code, key all symbolic, for each of the 20 version prefixes; every 2- and 3-step history of raw_serialize / xpub() / xpub(zpub) / xprv() on one object",
                   "traverse": "paths of 1..4 components from a fixed list of renderings (' / h / H, upper- and lower-case m) over symbolic key material"},
         "thorough": {"traverse": "paths up to 6 components"}},
-    "outside": ["is_valid_bip32_path / combine_bip32_paths / blind_xpub path bookkeeping on arbitrary path *strings* (regex and str methods on symbolic "
+    "outside": ["is_valid_bip32_path / combine_bip32_paths / blind_xpub path bookkeeping on arbitrary path *strings* beyond the renderings enumerated by O4-blinding-paths-concrete (regex and str methods on symbolic "
                 "text are beyond the engine; strings stay concrete)", "from_seed beyond the HMAC wiring (covered in C14)",
                 "the BIP32 invalid-child cases IL >= N and child key 0 (probability < 2^-127): assumed not to occur",
                 "Base58Check text layer (C09)"],
@@ -21,7 +21,9 @@ META = {
     "assumptions": ["prime-order group (C03)", "IL < N and IL + k != 0 mod N"],
 }
 MANIFEST = {"technique": "symbolic execution of the real HDPrivateKey/HDPublicKey child/traverse/codec code over an abstract prime-order group with "
-                         "uninterpreted HMAC-SHA512; GF(N) canonical form + z3 (LIA)"}
+                         "uninterpreted HMAC-SHA512; GF(N) canonical form + z3 (LIA); the path-string bookkeeping of combine_bip32_paths / blind_xpub "
+                         "has no symbolic content in this engine and is an enumerated structural obligation (engine 'concrete', reported "
+                         "separately, not solver evidence)"}
 
 
 def hmac512(key, data):
